@@ -208,3 +208,9 @@ package candidates
 //@ func (*Candidates).RecalculateStakesV2
 //@   trusted
 //@   modifies candAbs, candCache, candList, totalStakeOf, candObj, candExists, stakeObj, stakeList, stake.Value, stake.BipValue, Candidate.totalBipStake, Candidate.Status, Candidate.updates, bigval, wlItem, ffModel, frozenfunds.Model.List, ledgerDelta, ledgerVolume
+
+//@ # ---------------------------------------------------------------- lock discipline (C25)
+//@ guarded Candidates.list, Candidates.blockList by lock
+//@ # NOT declared: Candidates.pubKeyIDs (by lock) and Candidates.deletedCandidates (by muDeletedCandidates): helpers read
+//@ # them with the lock held by some callers and by none in others (existPubKey, id, loadStakes, loadDeletedCandidates
+//@ # from Export); the discipline is not established by the code, see DESIGN.md section 9
